@@ -180,6 +180,9 @@ func (node *Node) markTxUnsafe(ctx context.Context, txid bitcoin.Hash32) error {
 		return nil // Only send for txs that previously matched filters.
 	}
 
+	node.txStateLock.Lock()
+	defer node.txStateLock.Unlock()
+
 	txState, err := handlerstorage.FetchTxState(ctx, node.store, txid)
 	if err != nil {
 		return nil
